@@ -227,7 +227,7 @@ def gen_mix(r, sid, legacy, ties=None):
             "specs": [tf.spec_struct(sp) for sp in specs], "forms": [tf.form_class(sp) for sp in specs],
             "sunoff": [False] * len(specs), "horizon": horizon, "tail": r.choice([120, 600]),
             "removal": r.choice(["del", "redefine", "reload"]), "co": co, "stims": stims, "ties": ties,
-            "after": [[r.choice([5.0, 30.0]), k] for k in (["T"] if co["state"] else []) + (["E"] if co["event"] else [])]}
+            "after": sorted([r.choice([5.0, 30.0]), k] for k in (["T"] if co["state"] else []) + (["E"] if co["event"] else []))}
 
 
 def fixed_scenarios():
@@ -269,6 +269,24 @@ def fixed_scenarios():
 
 
 # =============================================================================== running it
+def creeping_clock(loop):
+    """The virtual loop's clock stands still while callbacks run; the default subsystem's state_hold loop
+    (decorators/state.py _cycle) re-reads it in a loop that does not yield when its timer woke it a rounding
+    error early (fl(A + H) - A < H) - on a real clock that lasts under a microsecond, on a frozen clock
+    forever.  Like the wall clock of this driver, the loop clock of a mix scenario therefore never returns the
+    same reading twice: + 1 ps per reading at an unchanged virtual time (a few ulps; placements are >= 0.3 us)."""
+    st = {"v": None, "n": 0}
+
+    def time():
+        v = loop._vtime
+        if v != st["v"]:
+            st["v"], st["n"] = v, 0
+        else:
+            st["n"] += 1
+        return v + st["n"] * 1e-12
+    loop.time = time
+
+
 def run_mix(scn):
     """Returns the recording: startup, every run (virtual time, phase, trigger_type, trigger_time), every
     stimulus with the virtual time (= clock reading) it was applied at."""
@@ -284,6 +302,7 @@ def run_mix(scn):
         w.hass.states.async_set(OTHER, "0")
         await w.settle()
         w.take()
+        creeping_clock(w.loop)
         wall, base_utc, clock = base_drv.wall_clock(w, base)
         trigger.dt_now = wall
         await base_drv.exec_src(w, src)
@@ -295,8 +314,8 @@ def run_mix(scn):
             for (t, a, _k) in w.take():
                 rec.append({"vt": t, "phase": phase, "type": a[1], "tt": a[2]})
 
-        async def apply(k, origin):
-            vt = w.vt() - origin
+        async def apply(k):
+            vt = w.vt()
             cur = w.hass.states.get(VAR).state
             n[0] += 1
             if k == "T":
@@ -313,7 +332,7 @@ def run_mix(scn):
         for t, k in scn["stims"]:
             await w.advance_to(t)
             grab("run")
-            applied.append({"vt": await apply(k, 0.0), "k": k})
+            applied.append({"vt": await apply(k), "k": k})
         await w.advance_to(scn["horizon"])
         grab("run")
         if scn["removal"] == "del":
@@ -325,7 +344,7 @@ def run_mix(scn):
         grab("removal")
         for t, k in scn.get("after", []):                    # the removed function's sources are gone too
             await w.advance_to(scn["horizon"] + t)
-            await apply(k, 0.0)
+            await apply(k)
         await w.advance_to(scn["horizon"] + scn["tail"])
         grab("after")
         return {"startup": tf.enc(startup), "base_utc": tf.enc(base_utc.replace(tzinfo=None)), "rec": rec, "applied": applied}
